@@ -1020,6 +1020,40 @@ class _Range2Enum(ast.NodeTransformer):
         return new
 
 
+class _Continue2Else(ast.NodeTransformer):
+    """In a loop body, `if c: A; continue` followed by R becomes
+    `if c: A else: R` (the same control flow written without the jump)."""
+
+    def _fix(self, body: list[ast.stmt]) -> list[ast.stmt]:
+        out: list[ast.stmt] = []
+        for k, st in enumerate(body):
+            if isinstance(st, ast.If) and not st.orelse and st.body and \
+                    isinstance(st.body[-1], ast.Continue) and k + 1 < len(
+                    body):
+                rest = self._fix(body[k + 1:])
+                new = ast.If(test=st.test,
+                             body=st.body[:-1] or [ast.Pass()],
+                             orelse=rest)
+                ast.copy_location(new, st)
+                for x in ast.walk(new):
+                    if not hasattr(x, "lineno"):
+                        ast.copy_location(x, st)
+                out.append(new)
+                return out
+            out.append(st)
+        return out
+
+    def visit_For(self, n: ast.For) -> ast.AST:
+        self.generic_visit(n)
+        n.body = self._fix(n.body)
+        return n
+
+    def visit_While(self, n: ast.While) -> ast.AST:
+        self.generic_visit(n)
+        n.body = self._fix(n.body)
+        return n
+
+
 def normalised(repo: "Repo", fi: "FuncInfo",
                cls: "ClassInfo | None" = None,
                aliases: bool = False) -> "FuncInfo":
@@ -1035,6 +1069,7 @@ def normalised(repo: "Repo", fi: "FuncInfo",
     node = copy.deepcopy(fi.node)
     node = _UnrollLiteral().visit(node)
     node = _Range2Enum().visit(node)
+    node = _Continue2Else().visit(node)
     ast.fix_missing_locations(node)
 
     # ---- keyword -> positional for resolvable library functions
